@@ -165,10 +165,13 @@ func genClEntry(t *rapid.T, first bool) ClEntry {
 	e.Who = rapid.SampledFrom(personNames).Draw(t, "who")
 	if rapid.IntRange(0, 7).Draw(t, "whoDouble") == 0 {
 		// two blanks inside the name, or in front of the address: the date begins after ">  "
-		e.Who = rapid.SampledFrom([]string{"John  Doe <j@d.org>", "Jane Roe  <jane@roe.example>", "A  B  C <abc@x.y>"}).Draw(t, "whoD")
+		e.Who = rapid.SampledFrom([]string{"John  Doe <j@d.org>", "Jane Roe  <jane@roe.example>", "A  B  C <abc@x.y>",
+			// ... a comma in the name (the date has one too, behind the weekday); no weekday or month names,
+			// which the malformed-date classes look for by text
+			"Vila, Santiago <sanvila@debian.org>", "Doe, John,Jr. <j@d.org>", "A,B <a@b.c>", "Key, M <m@k.org>", "x,y,z <w@p.org>", ",a <c@d.e>"}).Draw(t, "whoD")
 	}
 	e.Unix = int64(rapid.Int64Range(0, 4102444800).Draw(t, "unix"))
-	e.OffMin = rapid.SampledFrom([]int{0, 0, 60, 120, -300, -420, 330, 345, 570, -720, 840, -210, 1}).Draw(t, "off")
+	e.OffMin = rapid.SampledFrom([]int{0, 0, 60, 120, -300, -420, 330, 345, 570, -720, 840, -210, 1, 765, 825}).Draw(t, "off") // (765 / 825: the two offsets of Pacific/Chatham, the zone of the ambient pass)
 	if !first {
 		e.Gap = rapid.IntRange(1, 3).Draw(t, "gap")
 	} else {
@@ -255,7 +258,7 @@ func entriesMatch(got changelog.ChangelogEntries, want []ClEntry) error {
 
 var specC17Model = Register(&Spec[ClDoc]{
 	Prop: "C17", Name: "model",
-	Rule: "changelogs rendered from an entry-list model: 1..6 entries; source [a-z0-9][a-z0-9+.-]+, Policy-grammar version, 1..3 distributions, 0..3 key=value options (joined by ', ' - in a third of the headers by ',', ',  ', ' , ', a comma and a tab, with a blank behind '=' or blanks at the end of the line: dpkg splits at /\\s*,\\s*/ and reads key=\\s*value), body of blank lines after the header, '  * item', deeper continuation, '  [ Name ]', blank lines, lines of blanks only, lines ending in blanks or a tab, and lines containing ' -- ', ';', '(' in the middle, blank lines before the trailer; maintainer 'Name <mail>'; timestamp from a generated instant and zone offset (-12:00..+14:00 incl. half/quarter hours and +00:01) rendered like date -R, or with the day's leading zero left out or replaced by a blank (Policy allows a one-digit day); 0..3 blank lines between entries, in 1/6 of the cases carrying blanks or a tab (dpkg reads ^\\s*$ as blank) or being '#', '/* */' or '$Keyword: $' lines, which the format says are ignored; final newline present or absent; trailing blank lines, in a quarter of the cases followed by the two-line '# Older entries have been removed ...' footer of a trimmed changelog. Oracle: changelog.Parse returns one entry per block in order with Source, Version (parts), Target (distributions joined by one blank), Arguments, Changelog == exact bytes between header and trailer line, ChangedBy, When equal as instant AND zone offset; ParseOne returns the first; parsing the same text again right after three failing parses (document cut inside a body, trailer without date) gives the same entries; when the source FAILS (an error other than io.EOF) right behind a complete entry that is not the last, Parse returns an error - not the entries so far. Non-trivial: >= 2 entries, >= 2 options, or no final newline; distinct by text.",
+	Rule: "changelogs rendered from an entry-list model: 1..6 entries; source [a-z0-9][a-z0-9+.-]+, Policy-grammar version, 1..3 distributions, 0..3 key=value options (joined by ', ' - in a third of the headers by ',', ',  ', ' , ', a comma and a tab, with a blank behind '=' or blanks at the end of the line: dpkg splits at /\\s*,\\s*/ and reads key=\\s*value), body of blank lines after the header, '  * item', deeper continuation, '  [ Name ]', blank lines, lines of blanks only, lines ending in blanks or a tab, and lines containing ' -- ', ';', '(' in the middle, blank lines before the trailer; maintainer 'Name <mail>' (one in eight with two blanks inside or a comma in the name - 'Vila, Santiago', 'A,B'); timestamp from a generated instant and zone offset (-12:00..+14:00 incl. half/quarter hours, +00:01 and the winter and summer offsets of the ambient pass's own zone, +12:45 / +13:45) rendered like date -R, or with the day's leading zero left out or replaced by a blank (Policy allows a one-digit day); 0..3 blank lines between entries, in 1/6 of the cases carrying blanks or a tab (dpkg reads ^\\s*$ as blank) or being '#', '/* */' or '$Keyword: $' lines, which the format says are ignored; final newline present or absent; trailing blank lines, in a quarter of the cases followed by the two-line '# Older entries have been removed ...' footer of a trimmed changelog. Oracle: changelog.Parse returns one entry per block in order with Source, Version (parts), Target (distributions joined by one blank), Arguments, Changelog == exact bytes between header and trailer line, ChangedBy, When equal as instant AND zone offset; ParseOne returns the first; parsing the same text again right after three failing parses (document cut inside a body, trailer without date) gives the same entries; when the source FAILS (an error other than io.EOF) right behind a complete entry that is not the last, Parse returns an error - not the entries so far. Non-trivial: >= 2 entries, >= 2 options, or no final newline; distinct by text.",
 	Check: func(d ClDoc, r *Recorder) error {
 		text := renderClDoc(d)
 		nt := len(d.Entries) >= 2 || !d.FinalNewline
